@@ -12,6 +12,10 @@ def _recv_text(inst):
     return [(k, v[0]) for k, v in inst.recv]
 
 
+def _otxt(o):
+    return "the value %r" % (o[1],) if o[0] == "V" else "the error %s (%s)" % (errtok(o[1]), type(o[1]).__name__)
+
+
 def execute(spec, monitors, staged=None, check_values=True):
     """Runs spec once. Returns dict(violations=[(prop, check, msg)], stats=..., digest=..., outcome=...)."""
     B = real.RealBackend(spec, monitors)
@@ -48,6 +52,39 @@ def execute(spec, monitors, staged=None, check_values=True):
                 viol.append(("C05", "item-answer", m))
                 viol.append(("C01", "item-answer", m))
                 break
+    # ... and, faults included: every item of a flushed batch ends with exactly what the flush body
+    # did for it - the value or error instance it set, else the very exception the body raised or
+    # cancelled the batch with, else an AssertionError ("not set")
+    nrec = {}
+    for rec in B.flushes:
+        nrec[(rec["kind"], rec["gen"])] = nrec.get((rec["kind"], rec["gen"]), 0) + 1
+    for rec in B.flushes:
+        if rec.get("how") is None or nrec[(rec["kind"], rec["gen"])] != 1 or rec.get("cancelled"):
+            continue  # (body still running / re-entered / it cancelled other batches: judged elsewhere)
+        how, herr = rec["how"]
+        bad = None
+        for tok in rec["tokens"]:
+            if tok.startswith(("x", "s:")) or tok not in B.items:
+                continue
+            got = B.record.get(tok)
+            if got is None:
+                bad = "item %s of the flushed batch was never completed" % tok
+            elif tok in rec["set"]:
+                want = rec["set"][tok]
+                if got[0] != want[0] or (got[1] is not want[1] if want[0] == "E" else got[1] != want[1]):
+                    bad = "item %s was answered %s by the flush but holds %s" % (tok, _otxt(want), _otxt(got))
+            elif how in ("raised", "cancelled"):
+                if got[0] != "E" or got[1] is not herr:
+                    bad = "item %s was left unanswered by a flush that %s %s but holds %s" % (
+                        tok, "raised" if how == "raised" else "cancelled its batch with", errtok(herr), _otxt(got))
+            elif got[0] != "E" or type(got[1]) is not AssertionError:
+                bad = "item %s was left unanswered by a flush that returned normally but holds %s" % (tok, _otxt(got))
+            if bad:
+                break
+        if bad:
+            for pid in ("C05", "C02", "C01"):
+                viol.append((pid, "item-outcome", bad))
+            break
     res = {"violations": viol, "stats": stats, "B": B}
     real_out = ("V", repr(out[1])) if out[0] == "V" else ("E", errtok(out[1]))
     res["outcome"] = real_out
